@@ -538,7 +538,7 @@ def m_misc(ex, st, callee, A):
         # derive-generated (thiserror #[from]) conversion: the target wraps the source value unchanged
         ex.stats['stubbed'].add(f'From-wrapper:{base_type(m.group(1))}<-{base_type(m.group(2))}')
         return Agg('struct', m.group(1).strip(), None, [A[0]], ('from:' + base_type(m.group(2)),))
-    if re.search(r' as Clone>::clone$', callee) or re.search(r'clone::impls::<impl Clone for \w+>::clone$', callee):
+    if re.search(r' as (Clone>::clone|ToOwned>::to_owned)$', callee) or re.search(r'clone::impls::<impl Clone for \w+>::clone$', callee):
         v = A[0]
         if isinstance(v, Ref):
             return ex.read(st, v.fid, v.place)
@@ -586,10 +586,10 @@ def m_misc(ex, st, callee, A):
                     return BoolV(z3.LShR(a, 24) == 127 if four else a == 1)
                 return BoolV(z3.LShR(a, 28) == 14 if four else z3.LShR(a, 120) == 0xff)
         raise NotEncoded(f'{callee} on {v!r}')
-    if re.match(r'^bool::then_some::<', callee):
+    if re.match(r'^(core::bool::<impl bool>|bool)::then_some::<', callee):
         c = scalar(ex, st, A[0])
         return [([c.t], some(A[1])), ([z3.Not(c.t)], none())]
-    if re.match(r'^bool::then::<', callee):
+    if re.match(r'^(core::bool::<impl bool>|bool)::then::<', callee):
         c = scalar(ex, st, A[0])
         r = ex.call_closure(st, A[1], [], then=_then_wrap(some))
         return _flatten(ex, [([c.t], r), ([z3.Not(c.t)], none())])
@@ -709,16 +709,240 @@ def m_vec_macro(ex, st, callee, A):
     return None
 
 
+# ------------------------------------------------------------------ higher-order iterator adaptors and keyed maps over small concrete containers
+
+def key_id(op):
+    """symbolic identity of a key (SmolStr / EntityType / ...): two keys are equal iff their identities are"""
+    return z3.Int(f'kid!{op.id}')
+
+
+def _res(ex, st, v, n=8):
+    while isinstance(v, Ref) and n > 0:
+        v = ex.read(st, v.fid, v.place)
+        n -= 1
+    return v
+
+
+def key_eq(ex, st, a, b):
+    a, b = _res(ex, st, a), _res(ex, st, b)
+    if not (isinstance(a, Opaque) and isinstance(b, Opaque)):
+        raise NotEncoded(f'key comparison of {a!r} and {b!r}')
+    if a.id == b.id:
+        return z3.BoolVal(True)
+    return key_id(a) == key_id(b)
+
+
+def _take_iter(ex, st, x):
+    """items of a '~vec_iter' passed by value or by &mut; returns (items, consume(st2))"""
+    if isinstance(x, Ref):
+        it = ex.read(st, x.fid, x.place)
+        if isinstance(it, Agg) and it.name == '~vec_iter':
+            return list(it.fields), (lambda s2: ex.write(s2, x.fid, x.place, Agg('struct', '~vec_iter', None, [])))
+        return None, None
+    if isinstance(x, Agg) and x.name == '~vec_iter':
+        return list(x.fields), (lambda s2: None)
+    return None, None
+
+
+def _is_ok_like(ex, v):
+    """(condition that `v` continues a try_for_each, or None if unknown shape)"""
+    if isinstance(v, Agg) and v.variant in ('Ok', 'Continue', 'Some'):
+        return z3.BoolVal(True)
+    if isinstance(v, Agg) and v.variant in ('Err', 'Break', 'None'):
+        return z3.BoolVal(False)
+    if isinstance(v, Opaque):
+        for good in ('Ok', 'Continue'):
+            try:
+                return ex.is_variant(v, good)
+            except NotEncoded:
+                continue
+    return None
+
+
+def m_iter_hof(ex, st, callee, A):
+    m = re.search(r' as Iterator>::(any|all|try_for_each|count|zip|collect|map)(::<(.*)>)?$', callee)
+    if m and A:
+        op = m.group(1)
+        items, consume = _take_iter(ex, st, A[0])
+        if items is None:
+            return None
+        if op == 'count':
+            return [([], IntV(z3.IntVal(len(items)), 'usize'), consume)]
+        if op == 'zip':
+            other, _ = _take_iter(ex, st, A[1])
+            if other is None:
+                return None
+            n = min(len(items), len(other))
+            return Agg('struct', '~vec_iter', None, [Agg('tuple', None, None, [items[i], other[i]]) for i in range(n)])
+        if op == 'collect':
+            tgt = m.group(3) or ''
+            if re.search(r'(HashMap|BTreeMap)<', tgt):
+                ents = []
+                for it in items:
+                    if not (isinstance(it, Agg) and it.kind == 'tuple' and len(it.fields) == 2):
+                        raise NotEncoded(f'collect into a map of {it!r}')
+                    ents.append(it)
+                return Agg('struct', '~hmap', None, ents)
+            if re.search(r'(^|[:<])Vec<', tgt):
+                return Agg('struct', '~vec', None, items)
+            return None
+        clo = A[1]
+        if op == 'map':
+            # eager map over the concrete item list (closures of the code under test are pure); results in order
+            def gomap(st2, rest, acc):
+                if not rest:
+                    return Agg('struct', '~vec_iter', None, acc)
+                return ex.call_closure(st2, clo, [rest[0]], then=lambda st3, r: gomap(st3, rest[1:], acc + [r]))
+            return gomap(st, items, [])
+
+        def go(st2, rest):
+            if not rest:
+                if op == 'any':
+                    return BoolV(z3.BoolVal(False))
+                if op == 'all':
+                    return BoolV(z3.BoolVal(True))
+                return ok(UNIT)
+            x, more = rest[0], rest[1:]
+
+            def then(st3, r):
+                if op in ('any', 'all'):
+                    if not isinstance(r, BoolV):
+                        raise NotEncoded(f'{op} closure returned {r!r}')
+                    t = z3.simplify(r.t)
+                    stop_c, stop_v = (t, True) if op == 'any' else (z3.Not(t), False)
+                    alts = []
+                    if not z3.is_false(z3.simplify(stop_c)):
+                        alts.append(([stop_c] if not z3.is_true(z3.simplify(stop_c)) else [], BoolV(z3.BoolVal(stop_v))))
+                    if not z3.is_true(z3.simplify(stop_c)):
+                        alts.append(([z3.Not(stop_c)] if not z3.is_false(z3.simplify(stop_c)) else [], go(st3, more)))
+                    return alts
+                c = _is_ok_like(ex, r)
+                if c is None:
+                    raise NotEncoded(f'try_for_each closure returned {r!r}')
+                c = z3.simplify(c)
+                alts = []
+                if not z3.is_true(c):
+                    alts.append(([z3.Not(c)] if not z3.is_false(c) else [], r))
+                if not z3.is_false(c):
+                    alts.append(([c] if not z3.is_true(c) else [], go(st3, more)))
+                return alts
+            return ex.call_closure(st2, clo, [x], then=then)
+        r = go(st, items)
+        if consume is not None and isinstance(A[0], Ref):
+            consume(st)
+        return r
+    # keyed maps
+    if re.search(r'(HashMap|BTreeMap)::<.*>::(contains_key|get)(::<.*>)?$', callee) and isinstance(A[0], Ref):
+        mp = _res(ex, st, A[0])
+        if isinstance(mp, Agg) and mp.name in ('~hmap', '~btree'):
+            base = A[0]
+            while isinstance(ex.read(st, base.fid, base.place), Ref):
+                base = ex.read(st, base.fid, base.place)
+            eqs = [key_eq(ex, st, e.fields[0], A[1]) for e in mp.fields]
+            if re.search(r'::contains_key(::<.*>)?$', callee):
+                return BoolV(z3.simplify(z3.Or(eqs)) if eqs else z3.BoolVal(False))
+            alts = []
+            seen = []
+            for i, q in enumerate(eqs):
+                alts.append(([z3.And([z3.Not(x) for x in seen] + [q])], some(Ref(base.fid, ('field', ('field', base.place, i, '?'), 1, '?')))))
+                seen.append(q)
+            alts.append(([z3.And([z3.Not(x) for x in seen])] if seen else [], none()))
+            return alts
+    if re.search(r'(HashMap|BTreeMap)::<.*>::(iter|values|keys|is_empty|len)$', callee) and isinstance(A[0], Ref):
+        mp = _res(ex, st, A[0])
+        if isinstance(mp, Agg) and mp.name in ('~hmap',):
+            base = A[0]
+            while isinstance(ex.read(st, base.fid, base.place), Ref):
+                base = ex.read(st, base.fid, base.place)
+            what = callee.rsplit('::', 1)[1]
+            n = len(mp.fields)
+            if what == 'is_empty':
+                return BoolV(z3.BoolVal(n == 0))
+            if what == 'len':
+                return IntV(z3.IntVal(n), 'usize')
+            ref = lambda i, j: Ref(base.fid, ('field', ('field', base.place, i, '?'), j, '?'))
+            if what == 'iter':
+                return Agg('struct', '~vec_iter', None, [Agg('tuple', None, None, [ref(i, 0), ref(i, 1)]) for i in range(n)])
+            return Agg('struct', '~vec_iter', None, [ref(i, 1 if what == 'values' else 0) for i in range(n)])
+    if re.search(r'<&?(std::collections::)?(HashMap|BTreeMap)<.*> as IntoIterator>::into_iter$', callee):
+        mp = A[0]
+        if isinstance(mp, Agg) and mp.name in ('~hmap', '~btree'):
+            return Agg('struct', '~vec_iter', None, list(mp.fields))
+        if isinstance(mp, Ref):
+            v = _res(ex, st, mp)
+            if isinstance(v, Agg) and v.name in ('~hmap', '~btree'):
+                base = mp
+                while isinstance(ex.read(st, base.fid, base.place), Ref):
+                    base = ex.read(st, base.fid, base.place)
+                return Agg('struct', '~vec_iter', None, [Agg('tuple', None, None, [Ref(base.fid, ('field', ('field', base.place, i, '?'), 0, '?')), Ref(base.fid, ('field', ('field', base.place, i, '?'), 1, '?'))])
+                                                          for i in range(len(v.fields))])
+    return None
+
+
+def m_option_eq(ex, st, callee, A):
+    """Option<scalar> == Option<scalar> on values whose variants are concrete"""
+    m = re.match(r'^<(?:std::option::|core::option::)?Option<(bool|[iu](?:8|16|32|64|128|size)|char)> as PartialEq>::(eq|ne)$', callee)
+    if not m:
+        return None
+    a, b = _res(ex, st, A[0]), _res(ex, st, A[1])
+    if not (isinstance(a, Agg) and isinstance(b, Agg) and a.variant in ('Some', 'None') and b.variant in ('Some', 'None')):
+        return None
+    if a.variant != b.variant:
+        t = z3.BoolVal(False)
+    elif a.variant == 'None':
+        t = z3.BoolVal(True)
+    else:
+        x, y = _res(ex, st, a.fields[0]), _res(ex, st, b.fields[0])
+        if not (isinstance(x, (BoolV, IntV)) and isinstance(y, (BoolV, IntV))):
+            return None
+        t = x.t == y.t
+    return BoolV(t if m.group(2) == 'eq' else z3.Not(t))
+
+
+def m_ref_eq(ex, st, callee, A):
+    """`&A == &B` (std blanket impl) and the default `ne`: delegate to `<A as PartialEq>::eq` on the referents"""
+    m = re.match(r'^<&(.+?) as PartialEq(?:<&(.+)>)?>::(eq|ne)$', callee)
+    neg = False
+    if m:
+        inner = f'<{m.group(1)} as PartialEq>::eq' if not m.group(2) or m.group(2) == m.group(1) else f'<{m.group(1)} as PartialEq<{m.group(2)}>>::eq'
+        args = []
+        for a in A:
+            v = ex.read(st, a.fid, a.place) if isinstance(a, Ref) else a
+            args.append(v if isinstance(v, Ref) else a)
+        neg = m.group(3) == 'ne'
+    else:
+        m2 = re.match(r'^<(.+) as PartialEq(<.*>)?>::ne$', callee)
+        if not m2 or ex.resolve(callee, A) is not None:
+            return None
+        inner, args, neg = callee[:-2] + 'eq', list(A), True
+    r = ex.dispatch(st, inner, args)
+    if not neg:
+        return r
+    flip = lambda st2, v: BoolV(z3.Not(v.t)) if isinstance(v, BoolV) else (_ for _ in ()).throw(NotEncoded(f'ne over {v!r}'))
+    if isinstance(r, Enter):
+        if r.then is not None:
+            raise NotEncoded('nested continuation')
+        return Enter(r.func, r.args, flip, r.subst)
+    if isinstance(r, BoolV):
+        return BoolV(z3.Not(r.t))
+    if isinstance(r, list):
+        return [(a[0], BoolV(z3.Not(a[1].t))) + tuple(a[2:]) for a in r]
+    raise NotEncoded(f'ne over {r!r}')
+
+
 def install(ex):
     for rx, fn in [
         (r'new_uninit$|box_assume_init_into_vec_unsafe::<|Vec::<.*>::(new|push|pop)$|Vec<.*> as Deref(Mut)?>::deref(_mut)?$| as IntoIterator>::into_iter$| as Iterator>::(next$|filter::<)|slice::<impl \[.*\]>::iter$|BTreeMap::<.*>::iter$', m_vec_macro),
+        (r' as Iterator>::(any|all|try_for_each|count|zip|collect|map)(::<.*>)?$|(HashMap|BTreeMap)::<.*>::(contains_key|get|iter|values|keys|is_empty|len)(::<.*>)?$|(HashMap|BTreeMap)<.*> as IntoIterator>::into_iter$', m_iter_hof),
         (r'<impl [iu](8|16|32|64|128|size)>::\w+$', m_int),
         (r'(PartialOrd|PartialEq|Ord)(<[^>]*>)?( for \w+)?>::\w+$', m_int_cmp),
         (r'PartialOrd(<[^>]*>)?>::(lt|le|gt|ge)$|Ord>::(max|min)$', m_partial_ord),
         (r'(From|Into|TryFrom|TryInto)<\w+>>::(from|into|try_from|try_into)$', m_int_conv),
         (r'(Try>::branch|Try>::from_output|::from_residual)$', m_try),
+        (r'Option<\w+> as PartialEq>::(eq|ne)$', m_option_eq),
         (r'Option::<', m_option),
         (r'Result::<', m_result),
+        (r'^<&.+ as PartialEq(<&.+>)?>::(eq|ne)$|^<.+ as PartialEq(<.*>)?>::ne$', m_ref_eq),
         (r'.', m_misc),
     ]:
         ex.model(rx, fn)
